@@ -230,7 +230,9 @@ class WritableVersion(dns.zone.WritableVersion):
         if self.zone.relativize:
             return name == dns.name.empty
         else:
-            return name == self.zone.origin
+            # The version's origin: the zone's, or one learned in this transaction
+            # (e.g. from $ORIGIN) when the zone does not have one yet.
+            return name == self.origin
 
     def _maybe_cow_with_name(
         self, name: dns.name.Name
